@@ -10,12 +10,16 @@ import ScVerif.C09.Writers
 import ScVerif.C09.ReadOpts
 import ScVerif.C09.UpdateKind
 import ScVerif.C09.DeleteRetry
+import ScVerif.C09.TraitAdapter
 /-! Driver handler for C09.
 
 * `merge <a> <b>`                 → `mergeChanges a b` (`drop` when `send == false`)
 * `mrun <move>*`                  moves `r:<change>` (offer one input) / `e` (take one output) on the
                                   `mergeCollectionExcess` machine AS CODED (messages map + queue of ids, `MapQueue.lean`) from its initial state →
                                   `<out>;…|<pending>` with one `<out>` per `e` move (`none` = not enabled)
+* `tstream <move>*`               `mrun`, and what the machine emits piped through a trait package's conversion stage
+                                  (`arun (castChange f)`, TraitAdapter.lean; `f` prefixes the message with `t`; take / deliver
+                                  alternating) → the changes the trait's subscriber receives, `;`-separated
 * `drun <move>*`                  the same for `DropExcess` over opaque tokens: `r:<tok>` / `e`
 * `send <deadline> <listener>*`   `Bus.Send` with a deadline over listeners `<readyAt>/<cancelledAt>` (`-` = never)
                                   → `ok@<t>` or `deadline@<t>`
@@ -536,6 +540,14 @@ def handle? (toks : List String) : Option String :=
     let zero : SChange := ⟨"", .unspecified, 0, none, none, false, false⟩
     let r := crunOut zero CState.init ms
     pure (showOuts (r.1.map (showOut showChange)) ++ "|" ++ showChanges r.2.abs)
+  | "tstream" :: ms => do
+    let ms ← ms.mapM parseMove?
+    let zero : SChange := ⟨"", .unspecified, 0, none, none, false, false⟩
+    let r := crunOut zero CState.init ms
+    let up : List SChange := r.1.filterMap id
+    let a := arun (castChange (fun v => "t" ++ v)) up (ACfg.init : ACfg String String)
+      ((List.range up.length).flatMap (fun _ => [AMove.take, AMove.deliver]))
+    pure (showOuts (a.out.map showChange))
   | "drun" :: ms => do
     let ms ← ms.mapM parseDMove?
     let r := drunOut (none : DState String) ms
